@@ -17,7 +17,7 @@ pub const SHIFTS: [f64; 12] = [-24.0, -12.0, -1.0, -0.5, -0.009, 0.0, 0.00001, 0
 
 pub fn run(tier: Tier) -> i32 {
     let rep = Report::new("C15", tier, "model_checking");
-    rep.set_rule("SCOPE: shifts {-24,-12,-1,-0.5,-0.009,0,1e-5,0.004,0.5,1,12,24} half tones x voices (V0, P1..P3 with GV on; two-voice sets V0+Pk with weights (1.5,-.5), (.5,.5), (-.25,1.25); generated 2-/3-stream voices with GV off, also with the streams keyed MGC/F0/BAP) x (short utterances + corpus windows of 8 + windows around the lowest/highest-pitched voiced states) x (default + every single further deviation on the short set); trajectories through hook 1; oracle: same frame count and voiced pattern, lf0 shift = h ln2/12 (1e-9) on every voiced frame when no voiced state's mean reaches the 20 Hz..20 kHz clamp, spectrum and low-pass trajectories bit-identical, h=0 bit-identical to never calling the setter; a shift set before load_model equals setting it afterwards; distinct = (voice, other deviation, utterance, h); non-trivial = h != 0 and at least one voiced frame");
+    rep.set_rule("SCOPE: shifts {-24,-12,-1,-0.5,-0.009,0,1e-5,0.004,0.5,1,12,24} half tones (plus, per utterance, up to two shifts that carry one state's mean exactly onto the next state's) x voices (V0, P1..P3 with GV on; two-voice sets V0+Pk with weights (1.5,-.5), (.5,.5), (-.25,1.25); generated 2-/3-stream voices with GV off, also with the streams keyed MGC/F0/BAP) x (short utterances + corpus windows of 8 + windows around the lowest/highest-pitched voiced states) x (default + every single further deviation on the short set); trajectories through hook 1; oracle: same frame count and voiced pattern, lf0 shift = h ln2/12 (1e-9) on every voiced frame when no voiced state's mean reaches the 20 Hz..20 kHz clamp, spectrum and low-pass trajectories bit-identical, h=0 bit-identical to never calling the setter; a shift set before load_model equals setting it afterwards; distinct = (voice, other deviation, utterance, h); non-trivial = h != 0 and at least one voiced frame");
     rep.assume("shift lattice only; when some voiced state's shifted mean reaches the limit the expected trajectory is generated from the limited means through the public MlpgAdjust (itself checked by C05/C12)");
     let corpus = labels::corpus();
     let mut utts: Vec<Vec<String>> = vec![vec![corpus[41].clone()], corpus[40..43].to_vec()];
@@ -87,6 +87,7 @@ pub fn run(tier: Tier) -> i32 {
     let worst = Mutex::new(0.0f64);
     let nontriv = AtomicU64::new(0);
     let clamped_cases = AtomicU64::new(0);
+    let derived_shifts = AtomicU64::new(0);
     let mut jobs: Vec<(usize, usize, Vec<Act>)> = Vec::new();
     for (vi, v) in voices.iter().enumerate() {
         for ui in 0..utts.len() {
@@ -118,7 +119,32 @@ pub fn run(tier: Tier) -> i32 {
         let models = Models::new(&labs, &e0.voices, e0.condition.get_interporation_weight());
         let thr = e0.condition.get_msd_threshold(1);
         let means: Vec<f64> = models.model_stream(1).stream.iter().filter(|(_, msd)| *msd > thr).map(|(p, _)| p[0].0).collect();
-        for &h in &SHIFTS {
+        // besides the lattice: shifts that carry one state's log-F0 mean exactly onto the next state's (a relation between
+        // three numbers that no lattice contains) - searched among the few doubles around (m[i+1] - m[i]) / (ln2/12)
+        let mut shifts: Vec<f64> = SHIFTS.to_vec();
+        {
+            let all: Vec<f64> = models.model_stream(1).stream.iter().map(|(p, _)| p[0].0).collect();
+            let mut found = 0;
+            for w in all.windows(2) {
+                if found >= 2 || w[0] == w[1] {
+                    continue;
+                }
+                let h0 = (w[1] - w[0]) / HALF_TONE;
+                if !(h0.abs() <= 24.0) {
+                    continue;
+                }
+                for k in -16i64..=16 {
+                    let h = f64::from_bits((h0.to_bits() as i64 + k) as u64);
+                    if w[0] + h * HALF_TONE == w[1] {
+                        shifts.push(h);
+                        found += 1;
+                        break;
+                    }
+                }
+            }
+            derived_shifts.fetch_add(found as u64, Ordering::Relaxed);
+        }
+        for &h in &shifts {
             let mut e = e0.clone();
             e.condition.set_additional_half_tone(h);
             rep.eval(1);
@@ -238,7 +264,7 @@ pub fn run(tier: Tier) -> i32 {
         }
     }
     rep.nontrivial.store(nontriv.load(Ordering::Relaxed), Ordering::Relaxed);
-    rep.note("bounds", json!({"shifts": SHIFTS, "voices": voices.iter().map(|v| v.0.clone()).collect::<Vec<_>>(), "utterances": utts.len(), "corpus_stride": stride, "jobs": jobs.len(), "worst_shift_error": *worst.lock().unwrap(), "cases_reaching_the_clamp": clamped_cases.load(Ordering::Relaxed)}));
+    rep.note("bounds", json!({"shifts": SHIFTS, "voices": voices.iter().map(|v| v.0.clone()).collect::<Vec<_>>(), "utterances": utts.len(), "corpus_stride": stride, "jobs": jobs.len(), "worst_shift_error": *worst.lock().unwrap(), "cases_reaching_the_clamp": clamped_cases.load(Ordering::Relaxed), "shifts_mapping_one_state_mean_onto_the_next": derived_shifts.load(Ordering::Relaxed)}));
     rep.sample(json!({"voice": "V0", "other_condition": [], "labels": utts[0], "half_tone": -24.0}));
     rep.sample_last(json!({"voice": voices.last().unwrap().0, "labels": utts.last().unwrap(), "half_tone": 24.0}));
     rep.guard(nontriv.load(Ordering::Relaxed) > 100, "too few voiced non-zero-shift cases");
